@@ -453,6 +453,15 @@ def run(ctx: Ctx):
                     try:
                         setattr(comp, attr, zv)
                         b = comp.to_ical()
+                        if wire in ("DTSTAMP", "LAST-MODIFIED"):
+                            # the same through add(), under every spelling of the name: the RFC requires these in UTC
+                            for nm_ in (wire, wire.lower(), wire.title()):
+                                c2_ = cls()
+                                c2_.add(nm_, zv)
+                                ln2 = [ln for ln in unfold_lines(c2_.to_ical()) if ln.upper().startswith(wire)][0]
+                                g2 = cls.from_ical(c2_.to_ical())[wire].dt
+                                if not (ln2.endswith("Z") and "TZID" not in ln2.upper() and g2.tzinfo is not None and g2 == zv):
+                                    ctx.fail("P:C02:value-equal", {"add": nm_, "value": repr(zv), "provider": prov, "cls": cls.__name__}, [ln2, repr(g2)], None)
                         got = getattr(cls.from_ical(b), attr)
                         line = [ln for ln in unfold_lines(b) if ln.upper().startswith(wire)][0]
                         ok = got is not None and got.tzinfo is not None and got == zv and line.endswith("Z") and "TZID" not in line.upper()
